@@ -25,7 +25,8 @@ CFG = dict(
                          "c18:e2e-histories": 8, "c18:peer-down-closes-peer-up": 45, "c18:peer-down-after-reconstructed-peer-up": 18,
                          "c18:peer-up-live": 35, "c18:peer-up-reconstructed-from-global": 28, "c18:up-peer-has-open-peer-up": 40,
                          "c18:station-streams-judged": 25, "c18:station-rib-departed-peer-empty": 90,
-                         "c18:station-rib-departed-peer-had-routes": 30, "c18:station-rib-established-peer-equal": 120}),
+                         "c18:station-rib-departed-peer-had-routes": 30, "c18:station-rib-established-peer-equal": 120,
+                         "c18:e2e-histories-with-delay-injection": 8}),
     quick=[e2("conc", "event::verif::c18::run", 3, 120), e2("concb", "bmp::verif::c18b::run", 3, 120), e2("peertrack", "bmp::verif::c19b::c18_peer_tracking", 1, 120)],
     thorough=[e2("conc", "event::verif::c18::run", 8, 150), dict(e2("concb", "bmp::verif::c18b::run", 8, 150), seed_offset=100),
               e2("tsan", "event::verif::c18::run", 4, 120, flavor="tsan"),
